@@ -37,21 +37,28 @@ Definition RP (g : zgate) : string := repr_case gtables g.
 """
 
 FORMATS = ("ionq", "projectq")
-# recorded defects: signature -> (as-is props file, witness spec evaluated by the oracle first)
+# recorded defects: signature -> (as-is props file compiled while the implementation shows the defect,
+#                               repaired props file compiled when it does not (or None),
+#                               witness evaluated by the oracle first: (format, gate specs, n_qubits))
 ASIS = {
     "C17/projectq/PHASE-written-as-R":
-        ("C17_pq_PHASE_asis.v", ("projectq", [dict(name="PHASE", target=[0], control=None, k=4)], None)),
+        ("C17_pq_PHASE_asis.v", "C17_pq_PHASE_repaired.v",
+         ("projectq", [dict(name="PHASE", target=[0], control=None, k=4)], None)),
     "C17/projectq/MEASURE-dropped-by-reader":
-        ("C17_pq_MEASURE_asis.v", ("projectq", [dict(name="H", target=[0], control=None, k=None),
-                                                dict(name="MEASURE", target=[0], control=None, k=None)], None)),
+        ("C17_pq_MEASURE_asis.v", None,
+         ("projectq", [dict(name="H", target=[0], control=None, k=None),
+                       dict(name="MEASURE", target=[0], control=None, k=None)], None)),
     "C17/projectq/CNOT-extra-controls-dropped":
-        ("C17_pq_CNOT_asis.v", ("projectq", [dict(name="CNOT", target=[0], control=[1, 2], k=None)], None)),
+        ("C17_pq_CNOT_asis.v", "C17_pq_CNOT_repaired.v",
+         ("projectq", [dict(name="CNOT", target=[0], control=[1, 2], k=None)], None)),
     "C17/projectq/width-not-restored":
-        ("C17_pq_width_asis.v", ("projectq", [dict(name="H", target=[0], control=None, k=None)], 4)),
+        ("C17_pq_width_asis.v", None, ("projectq", [dict(name="H", target=[0], control=None, k=None)], 4)),
     "C17/ionq/controlled-kind-without-control-read-as-uncontrolled":
-        ("C17_ionq_nocontrol_asis.v", ("ionq", [dict(name="CNOT", target=[1], control=None, k=None)], None)),
+        ("C17_ionq_nocontrol_asis.v", None, ("ionq", [dict(name="CNOT", target=[1], control=None, k=None)], None)),
 }
 PQ_TABLE_DEFECTS = ["C17/projectq/PHASE-written-as-R", "C17/projectq/MEASURE-dropped-by-reader"]
+FALLBACK = {"GateTables": VERIF / "translator" / "expected" / "C17_GateTables.v",
+            "FormatTables": VERIF / "translator" / "expected" / "C17_FormatTables.v"}
 
 
 # ------------------------------------------------------------------------------------------ gates
@@ -369,9 +376,11 @@ def sweep_gate_specs(fmt, decl, tier):
             params = [dict(k=None)]
             if name in PARAMETERIZED_GATES:
                 params = [dict(k=k) for k in ks] + [dict(k=None, pstr="theta"), dict(k=None, pstr="a_1"), dict(k=None)]
+                # zero in every numeric guise, integers, integer-valued floats, negative and large magnitudes
+                params += [dict(praw=v) for v in DESIGNATED_RAW]
             for p in params:
                 for var in (False, True):
-                    if var and p.get("k") not in (None, 3) and tier == "quick":
+                    if var and (p.get("k") not in (None, 3) or "praw" in p) and tier == "quick":
                         continue
                     s = dict(name=name, target=target, control=ctrl, var=var)
                     s.update(p)
@@ -379,8 +388,16 @@ def sweep_gate_specs(fmt, decl, tier):
     return out
 
 
+DESIGNATED_RAW = [0, 0.0, -0.0, 1, -3, 7, 4.0, -2.0, 1000.5, -1234.5678, 123456.789012345, -1e6, 1e6 + 0.25, 1e-12]
+
+
 def rand_param_raw(rng):
     import numpy as np
+    r = rng.random()
+    if r < 0.12:
+        return rng.choice(DESIGNATED_RAW)
+    if r < 0.2:
+        return rng.choice([-1, 1]) * rng.uniform(1e3, 1e6)
     r = rng.random()
     if r < 0.35:
         return rng.uniform(-9, 9)
@@ -442,7 +459,7 @@ def run_format_streams(ck, fmt, decl):
              ([dict(name="H", target=[2], control=None, k=None), dict(name="MEASURE", target=[2], control=None, k=None)], None),
              ([dict(name="X", target=[0], control=None, k=None), dict(name="CNOT", target=[1], control=[0], k=None),
                dict(name="RZ", target=[1], control=None, k=5), dict(name="PHASE", target=[0], control=None, k=2)], None)]
-    for sig, (_f, (wfmt, specs, nq)) in ASIS.items():
+    for sig, (_f, _r, (wfmt, specs, nq)) in ASIS.items():
         if wfmt == fmt:
             fixed.append((specs, nq))
     for specs, nq in fixed:
@@ -511,7 +528,7 @@ def run_format_streams(ck, fmt, decl):
             continue
         exprs.append("%s %s" % ("IQ" if fmt == "ionq" else "PQ", args))
         pend.append((stream, specs, nq, impl_s))
-    model = ck.coq_eval("%s_cases" % fmt, PREAMBLE, exprs, shard=150)
+    model = model_eval(ck, "%s_cases" % fmt, exprs, 150)
     for (stream, specs, nq, impl_s), m in zip(pend, model):
         if impl_s != m:
             wi, ri = impl_s.split(" # ")
@@ -560,7 +577,7 @@ def run_reader_streams(ck):
             if rng.random() < 0.35:
                 r[rng.choice(["control", "controls"])] = qs[nt:nt + rng.randint(1, 2)]
             if rng.random() < 0.5:
-                r["rotation"] = rng.choice([LC.theta(LC.rand_k(rng)), "theta"])
+                r["rotation"] = rng.choice([LC.theta(LC.rand_k(rng)), LC.theta(LC.rand_k(rng)), "theta", 0.0, 0, LC.theta(-67), LC.theta(8003)])
             if rng.random() < 0.05:
                 r.pop("target", None)
                 r.pop("targets", None)
@@ -597,8 +614,9 @@ def run_reader_streams(ck):
             if pr < 0.45 or nq == 2:
                 ptxt, pterm = None, "None"
             elif pr < 0.85:
-                k = LC.rand_k(rng)
-                ptxt, pterm = repr(LC.theta(k)), "(Some (PNum %s))" % coq_Z(k)
+                k = rng.choice([LC.rand_k(rng), LC.rand_k(rng), 0, -67, 8003])
+                ptxt = rng.choice(["0", "0.0", "-0.0"]) if k == 0 else repr(LC.theta(k))
+                pterm = "(Some (PNum %s))" % coq_Z(k)
             elif pr < 0.95:
                 ptxt, pterm = "theta", '(Some (PStr "theta"))'
             else:
@@ -623,7 +641,7 @@ def run_reader_streams(ck):
         if ok:
             exprs.append("PQR %s" % coq_list(terms))
             pend.append(("projectq", text, impl))
-    model = ck.coq_eval("readers", PREAMBLE, exprs, shard=150)
+    model = model_eval(ck, "readers", exprs, 150)
     for (fmt, prog, impl), m in zip(pend, model):
         if impl != m:
             ck.violation("C17/correspondence/%s/reader-alone" % fmt,
@@ -666,7 +684,9 @@ def run_repr_stream(ck):
         for ctrl in ([None] if not nm.startswith("C") or nm == "CMEASURE" else [[0], [5, 3], [4, 0, 2], None, []]):
             plist = [dict(k=None)]
             if nm in PARAMETERIZED_GATES:
-                plist = [dict(k=3), dict(k=-16), dict(k=None, pstr="theta"), dict(praw=0.1 + 0.2), dict(praw=7),
+                plist = [dict(k=3), dict(k=-16), dict(k=0), dict(k=8003), dict(k=None, pstr="theta"), dict(praw=0.1 + 0.2), dict(praw=7),
+                         dict(praw=0), dict(praw=0.0), dict(praw=-3), dict(praw=4.0), dict(praw=1000.123456789012),
+                         dict(praw=-123456.789012345), dict(praw=1e6 + 0.25), dict(praw=1e22),
                          dict(praw=np.float64(0.25)), dict(praw=np.float32(0.3)), dict(praw=np.int64(-2)), dict(praw=-1e-9),
                          dict(praw=True), dict(praw=sympy.Symbol("theta")), dict(k=None)]
             if nm == "CMEASURE":
@@ -720,7 +740,7 @@ def run_repr_stream(ck):
             if ok and LC.show_gate_impl(g)[1]:
                 exprs.append("RP %s" % LC.coq_gate(LC.spec_of_gate(g)))
                 pend.append((s, fs + " # " + out))
-    model = ck.coq_eval("repr", PREAMBLE, exprs, shard=200)
+    model = model_eval(ck, "repr", exprs, 200)
     for (s, impl), m in zip(pend, model):
         if impl != m:
             ck.violation("C17/correspondence/repr", "model and implementation differ: impl=%s model=%s" % (impl, m),
@@ -797,9 +817,74 @@ def run_operator_stream(ck):
 
 
 # ------------------------------------------------------------------------------------------ main
-def run(ck):
+def model_eval(ck, name, exprs, shard):
+    """Model side of a correspondence stream; [] (nothing compared) when no table file could be compiled."""
+    if not getattr(ck, "model_ok", False):
+        ck.not_evaluated += len(exprs)
+        return []
+    return ck.coq_eval(name, PREAMBLE, exprs, shard=shard)
+
+
+def write_fallback():
+    """Maintenance (never at run time): store the tables of the current /repo as last-known-good constants."""
+    from translator import format_tables, gate_tables
+    FALLBACK["GateTables"].write_text(gate_tables.emit(gate_tables.extract(REPO)))
+    FALLBACK["FormatTables"].write_text(format_tables.emit(format_tables.extract(REPO)))
+
+
+def make_tables(ck):
+    """gen/GateTables.v and gen/FormatTables.v: regenerated from /repo; when a translator refuses the source
+    the refusal is reported (no failing input by itself) and the last-known-good constants are used, so that
+    the correspondence and every oracle still run.  Returns True when both are regenerated."""
     from translator import format_tables, gate_tables
     from translator.common import TranslateError
+    origin = {}
+    for name, mod in (("GateTables", gate_tables), ("FormatTables", format_tables)):
+        try:
+            text = mod.emit(mod.extract(REPO))
+            origin[name] = "regenerated from /repo"
+            if FALLBACK[name].exists() and FALLBACK[name].read_text() != text:
+                ck.notes.setdefault("fallback_tables_differ_from_regenerated", []).append(name)
+        except TranslateError as e:
+            ck.violation("C17/translator/%s" % ("format_tables" if name == "FormatTables" else "gate_tables"),
+                         "translator no longer recognises the source: %s" % e,
+                         {"kind": "translator", "table": name, "error": str(e)}, found_input=False)
+            text = FALLBACK[name].read_text()
+            origin[name] = "FALLBACK: last-known-good constants (translator/expected/%s), NOT the current source" % FALLBACK[name].name
+        ck.write_gen(name, text)
+    ck.gen_files = list(dict.fromkeys(ck.gen_files))
+    ck.notes["tables"] = origin
+    return all(v.startswith("regenerated") for v in origin.values())
+
+
+def compile_tables(ck, force_fallback=False):
+    """Compile the gen files for the model evaluation (ck.prove does it on the normal path)."""
+    if force_fallback:
+        for name in FALLBACK:
+            ck.write_gen(name, FALLBACK[name].read_text())
+            ck.notes["tables"][name] = "FALLBACK: last-known-good constants (the regenerated file did not compile)"
+        ck.gen_files = list(dict.fromkeys(ck.gen_files))
+    from harness.lib import ensure_theories, theory_targets
+    ensure_theories(theory_targets([PREAMBLE] + [g.read_text() for g in ck.gen_files]))
+    for g in ck.gen_files:
+        rc, out, _cmd = ck.coqc(g)
+        if rc != 0:
+            return False, out
+    return True, ""
+
+
+def guarded(ck, name, fn, *args):
+    """Every stream under its own try/except: a crash is reported and the next stream still runs."""
+    import traceback
+    try:
+        fn(ck, *args)
+    except Exception:
+        tb = traceback.format_exc()
+        ck.violation("C17/harness-crash/%s" % name, "stream %s could not complete: %s" % (name, tb.splitlines()[-1]),
+                     {"kind": "crash", "stream": name, "traceback": tb}, found_input=False)
+
+
+def run(ck):
     ck.trusted = ["Coq 8.16.1 kernel (coqc), vm_compute",
                   "translator/format_tables.py, translator/gate_tables.py, translator/common.py (ast pattern match, fail closed)",
                   "harness/props/C17.py + harness/linq_common.py (generators, canonical printers, the in-domain predicate of the oracle)",
@@ -810,84 +895,97 @@ def run(ck):
                       "non-parameterised kinds carry no parameter",
                       "is_variational is not part of either format: equality after import is checked with the flags cleared",
                       "OpenQASM / qiskit / braket / projectq-operator conversions need absent packages and are not run"]
+    ck.model_ok = False
+    regenerated = False
     try:
-        ck.write_gen("GateTables", gate_tables.emit(gate_tables.extract(REPO)))
-        ck.write_gen("FormatTables", format_tables.emit(format_tables.extract(REPO)))
-    except TranslateError as e:
-        ck.violation("C17/translator/format_tables", "translator no longer recognises the source: %s" % e,
-                     {"kind": "translator", "error": str(e)}, found_input=False)
-        translator_ok = False
-    else:
-        translator_ok = True
+        regenerated = make_tables(ck)
+    except Exception as e:          # e.g. fallback file missing
+        ck.violation("C17/translator/tables", "no table file could be produced: %r" % e, {"kind": "translator"}, found_input=False)
 
     try:
         import tangelo.linq  # noqa
         from tangelo.linq.translator import translate_json_ionq, translate_projectq  # noqa
+        tangelo_ok = True
     except Exception as e:
         ck.violation("C17/import", "tangelo.linq cannot be imported: %r" % e, {"kind": "import"}, found_input=False)
-        return
+        tangelo_ok = False
 
     # ---- which recorded defects does the implementation show now (witnesses of the _refuted theorems)
-    present = {}
-    decls = {f: declared(f) for f in FORMATS}
-    for sig, (_file, (fmt, specs, nq)) in ASIS.items():
+    present, decls = {}, {}
+    if tangelo_ok:
+        for f in FORMATS:
+            try:
+                decls[f] = declared(f)
+            except Exception as e:
+                ck.violation("C17/%s/dictionary" % f, "the format's gate dictionary cannot be built: %r" % e,
+                             {"kind": "import"}, found_input=False)
+                decls[f] = set()
+        for sig, (_asis, _rep, (fmt, specs, nq)) in ASIS.items():
+            try:
+                r = roundtrip(fmt, mk_circuit(specs, nq))
+                present[sig] = r["stage"] == "altered" or (r["stage"] == "reader-raised")
+            except Exception:
+                present[sig] = True
+        ck.notes["recorded_defects_present"] = present
+
+    # ---- proofs (only over tables regenerated from the current source)
+    if regenerated:
         try:
-            c = mk_circuit(specs, nq)
-            r = roundtrip(fmt, c)
-            present[sig] = r["stage"] != "ok"
-        except Exception:
-            present[sig] = True
-    ck.notes["recorded_defects_present"] = present
+            prove_all(ck, present)
+        except Exception as e:
+            ck.violation("C17/proof/crash", "the proof step could not run: %r" % e, {"kind": "proof"}, found_input=False)
+    else:
+        ck.notes["proof_step"] = "skipped: theorems over fallback tables would say nothing about the current source"
+    # ---- make sure compiled table files exist for the model side of the correspondence
+    try:
+        ok, out = compile_tables(ck) if ck.gen_files else (False, "no table file")
+        if not ok:
+            ok, out = compile_tables(ck, force_fallback=True)
+        ck.model_ok = ok
+        if not ok:
+            ck.violation("C17/model/tables-do-not-compile", "neither regenerated nor fallback tables compile: %s" % out[-400:],
+                         {"kind": "model", "log_tail": out[-2000:]}, found_input=False)
+    except Exception as e:
+        ck.violation("C17/model/tables-do-not-compile", "table files could not be compiled: %r" % e, {"kind": "model"},
+                     found_input=False)
+    if not tangelo_ok:
+        return
 
-    # ---- proofs
-    if translator_ok:
-        res = ck.prove()
-        if not res.ok:
-            ck.proof_violation(res)
-        for sig, (fname, _w) in ASIS.items():
-            if present[sig]:
-                r2 = ck.prove(props_file=COQ / "props" / fname)
-                if not r2.ok:
-                    ck.proof_violation(r2, "(as-is variant %s: the model no longer reproduces the recorded defect %s "
-                                       "that the implementation still shows)" % (fname, sig))
-        if not any(present[s] for s in PQ_TABLE_DEFECTS):
-            r3 = ck.prove(props_file=COQ / "props" / "C17_pq_repaired.v")
-            if not r3.ok:
-                ck.proof_violation(r3, "(repaired variant)")
-            ck.notes["projectq_variant"] = "repaired: full theorem C17_projectq_roundtrip"
-        else:
-            ck.notes["projectq_variant"] = "as-is: C17_projectq_roundtrip_partial + _refuted witnesses"
-        ck.notes["theorem_status"] = {
-            "C17_ionq_roundtrip": "full", "C17_ionq_roundtrip_variational": "full", "C17_writers_refuse_unsupported": "full",
-            "C17_repr_fields_roundtrip": "full under non-empty target / control lists (refuted outside: C17_repr_refuted_*)",
-            "C17_projectq_roundtrip_partial": "partial (surviving kinds, one control, no idle qubits)",
-            "clauses without a theorem": ["cirq operator conversion (openfermion / cirq code; oracle only)",
-                                          "OpenQASM reader (writer needs qiskit)"]}
-
-    # ---- correspondence + oracle
+    # ---- correspondence + oracle: every stream runs whatever happened above
     for fmt in FORMATS:
-        if translator_ok:
-            run_format_streams(ck, fmt, decls[fmt])
-        else:
-            oracle_only(ck, fmt, decls[fmt])
-    if translator_ok:
-        run_reader_streams(ck)
-    run_repr_stream(ck) if translator_ok else None
-    run_operator_stream(ck)
+        guarded(ck, "%s-streams" % fmt, run_format_streams, fmt, decls[fmt])
+    guarded(ck, "reader-streams", run_reader_streams)
+    guarded(ck, "repr", run_repr_stream)
+    guarded(ck, "operators", run_operator_stream)
 
 
-def oracle_only(ck, fmt, decl):
-    """Translator failed: still search the implementation for a concrete failing input."""
-    for s in sweep_gate_specs(fmt, decl, ck.tier):
-        try:
-            c, r, dom = oracle_case(ck, fmt, [s], None, decl, "%s-gates" % fmt)
-        except ValueError:
+def prove_all(ck, present):
+    res = ck.prove()
+    if not res.ok:
+        ck.proof_violation(res)
+    variants = {}
+    for sig, (asis, repaired, _w) in ASIS.items():
+        fname = asis if present.get(sig, True) else repaired
+        variants[sig] = "as-is (%s)" % asis if present.get(sig, True) else ("repaired (%s)" % repaired if repaired else "defect not shown; no repaired variant")
+        if fname is None:
             continue
-        ck.case("%s-gates" % fmt, json.dumps(spec_json(s), sort_keys=True, default=str), tags=[r["stage"]])
-    for _ in range(300):
-        specs, nq = rand_circuit_specs(ck.rng, fmt, decl, ck.tier)
-        c, r, dom = oracle_case(ck, fmt, specs, nq, decl, "%s-circuits" % fmt)
-        ck.case("%s-circuits" % fmt, json.dumps([[spec_json(s) for s in specs], nq], default=str), tags=[r["stage"]])
+        r2 = ck.prove(props_file=COQ / "props" / fname)
+        if not r2.ok:
+            ck.proof_violation(r2, "(variant %s for %s: the model does not match what the implementation does now)" % (fname, sig))
+    if not any(present.get(s, True) for s in PQ_TABLE_DEFECTS):
+        r3 = ck.prove(props_file=COQ / "props" / "C17_pq_repaired.v")
+        if not r3.ok:
+            ck.proof_violation(r3, "(repaired variant)")
+        ck.notes["projectq_variant"] = "repaired: full theorem C17_projectq_roundtrip"
+    else:
+        ck.notes["projectq_variant"] = "as-is: C17_projectq_roundtrip_partial + _refuted witnesses"
+    ck.notes["variants"] = variants
+    ck.notes["theorem_status"] = {
+        "C17_ionq_roundtrip": "full", "C17_ionq_roundtrip_variational": "full", "C17_writers_refuse_unsupported": "full",
+        "C17_repr_fields_roundtrip": "full under non-empty target / control lists (refuted outside: C17_repr_refuted_*)",
+        "C17_projectq_roundtrip_partial": "partial (surviving kinds, one target, one control, no idle qubits)",
+        "clauses without a theorem": ["cirq operator conversion (openfermion / cirq code; oracle only)",
+                                      "OpenQASM reader (writer needs qiskit)"]}
 
 
 def replay(data):
